@@ -12,8 +12,8 @@ use crate::zodm;
 use serde_json::{json, Value};
 
 pub const FIELD_FORMS: &[&str] =
-    &["none", "rename", "skip", "skip_serializing_if", "default", "default_path", "rename_default", "default_rename", "two_attrs", "validate_doc_rename", "ssi_path_default", "skip_default", "rename_then_default_attr", "rename_then_ssi_attr", "three_attrs_rename_mid"];
-pub const VARIANT_FORMS: &[&str] = &["none", "rename", "doc_rename", "two_attrs", "rename_then_alias_attr"];
+    &["none", "rename", "skip", "skip_serializing_if", "default", "default_path", "rename_default", "default_rename", "two_attrs", "validate_doc_rename", "ssi_path_default", "skip_default", "rename_then_default_attr", "rename_then_ssi_attr", "three_attrs_rename_mid", "rename_raw_literal"];
+pub const VARIANT_FORMS: &[&str] = &["none", "rename", "doc_rename", "two_attrs", "rename_then_alias_attr", "rename_raw_literal"];
 
 pub const RENAMES: &[&str] = &[
     "userId", "user-id", "USER-ID", "with space", "rename_all", "skip", "quo\"te", "back\\slash", "ünï-cödé", "a.b", "123abc", "type", "rename", "skip_me", "x", "dollar$", "emoji😀",
@@ -123,6 +123,15 @@ pub fn make_item(ident: &str, form: &str, rename: &str, idx: usize) -> ItemM {
         "three_attrs_rename_mid" => (format!("#[serde(default)]\n    #[serde(rename = {})]\n    #[serde(alias = \"other_name\")]", lit), Some(rename), false, false),
         "rename_then_alias_attr" => (format!("#[serde(rename = {})]\n    #[serde(alias = \"old_name\")]", lit), Some(rename), false, false),
         "doc_rename" => (format!("/// the skip of rename\n    #[serde(rename = {})]", lit), Some(rename), false, false),
+        // the same string as a raw literal (r#"..."#): escapes are not processed inside one, so the
+        // value is the text between the delimiters
+        "rename_raw_literal" => {
+            if rename.contains("\"#") || rename.contains('\r') {
+                (format!("#[serde(rename = {})]", lit), Some(rename), false, false)
+            } else {
+                (format!("#[serde(rename = r#\"{}\"#)]", rename), Some(rename), false, false)
+            }
+        }
         _ => unreachable!("form {}", form),
     };
     ItemM { ident: ident.to_string(), form: form.to_string(), rename: ren.map(String::from), skipped, attrs, optional_ty: opt }
@@ -433,7 +442,7 @@ fn random_types(t: &mut Tape) -> (Vec<TypeM>, &'static str) {
 pub fn run(ctx: &Ctx) {
     let validated = serde_names::validate();
     ctx.note("oracle_fixtures_validated", json!(validated));
-    ctx.set_rule("full grid: container rename_all in {none + 8 rules} x {struct field, enum variant} x item-level attribute forms (15 for fields, 5 for variants) x 14 identifier shapes x both modes, field visibility rotating over pub / private / pub(crate), the container attributes written in 7 rotating spellings (rename_all alone / before or after another key / in its own attribute before or after another one / beside a container-level rename / under a doc comment naming another rule), renames drawn from a pool of 20 strings; plus random types with random identifiers and random rename strings. evaluation = one item (field/variant) whose wire name is compared; non-trivial = container rule present or item-level attribute present; distinct by (rule, kind, form, identifier, rename, mode)");
+    ctx.set_rule("full grid: container rename_all in {none + 8 rules} x {struct field, enum variant} x item-level attribute forms (16 for fields, 6 for variants, one of them the rename as a raw string literal) x 14 identifier shapes x both modes, field visibility rotating over pub / private / pub(crate), the container attributes written in 7 rotating spellings (rename_all alone / before or after another key / in its own attribute before or after another one / beside a container-level rename / under a doc comment naming another rule), renames drawn from a pool of 20 strings; plus random types with random identifiers and random rename strings. evaluation = one item (field/variant) whose wire name is compared; non-trivial = container rule present or item-level attribute present; distinct by (rule, kind, form, identifier, rename, mode)");
     ctx.set_exhaustive(false);
     ctx.assume("expected names come from a port of serde_derive's case rules, validated at start-up against types compiled with the real serde_derive");
     ctx.assume("default_field_case stays at its default (snake_case = identity)");
